@@ -198,7 +198,7 @@ pub fn run_case(c: &GCase, cache: &ConfirmCache) -> CaseReport {
                 for d in ex.sat.iter().take(6) {
                     todo.push((d.script.clone(), true, d.tag.clone()));
                 }
-                for (_, d) in ex.unsat_samples.iter().take(3) {
+                for (_, d) in ex.unsat_samples.iter().take(5) {
                     todo.push((d.script.clone(), false, d.tag.clone()));
                 }
                 for (script, model_sat, tag) in todo {
